@@ -39,7 +39,7 @@ func checkObsThreading(c *Ctx, p *Prog, R *BusRoles, rule string) {
 		n++
 		if start, isComplete := pair[s.m]; isComplete {
 			want := "call:invoke:Observability." + start + "#0"
-			okAll, bad := onlyOrigins(os, want, "param:")
+			okAll, bad := onlyOrigins(os, want, "param:", "call:invoke:Observability.OnPublishStart#0")
 			if hasOrigin(os, want) && okAll {
 				c.Discharge(rule, construct, p.Pos(s.in.Pos()), s.m+" receives the context returned by "+start)
 			} else {
@@ -50,7 +50,7 @@ func checkObsThreading(c *Ctx, p *Prog, R *BusRoles, rule string) {
 		// start callbacks: the context descends from the function's own ctx parameter only
 		// the context variable is reassigned with the callback's own result, which a
 		// flow-insensitive view of the variable also sees as an origin
-		okAll, bad := onlyOrigins(os, "param:", "call:invoke:Observability."+s.m+"#0")
+		okAll, bad := onlyOrigins(os, "param:", "call:invoke:Observability."+s.m+"#0", "call:invoke:Observability.OnPublishStart#0")
 		isCtxParam := false
 		for _, o := range os {
 			if strings.HasSuffix(o, ".ctx") {
@@ -69,7 +69,7 @@ func checkObsThreading(c *Ctx, p *Prog, R *BusRoles, rule string) {
 		for _, in := range b.Instrs {
 			if call, ok := in.(*ssa.Call); ok && call.Common().IsInvoke() && call.Common().Method.Name() == "Append" {
 				os := flow.Origins(call.Common().Args[0])
-				okAll, bad := onlyOrigins(os, "param:", "call:invoke:Observability.OnPersistStart#0")
+				okAll, bad := onlyOrigins(os, "param:", "call:invoke:Observability.OnPersistStart#0", "call:invoke:Observability.OnPublishStart#0")
 				c.Check(okAll && len(os) > 0, rule, "persist-fn/append/context", p.Pos(in.Pos()), "Append receives the persist context", "Append is given a context that does not descend from the publish context (origin "+bad+")")
 			}
 		}
